@@ -3,6 +3,7 @@ package vc
 import (
 	"fmt"
 	"go/ast"
+	"go/token"
 	"go/types"
 	"sort"
 
@@ -76,6 +77,7 @@ type loopInfo struct {
 	frameEqs []Term
 	stable   map[string]bool // field components assumed unwritten by the loop (validated)
 	fullComps []compRef      // components the loop havocs entirely (get an automatic frame invariant)
+	rangePhis []*ssa.Phi     // range-index phis (automatic invariant phi >= -1)
 }
 
 type nameBinding struct {
@@ -540,6 +542,10 @@ func (f *Frame) namesAt(h *ssa.BasicBlock) map[string]nameBinding {
 		if _, dup := names[p.Name()]; !dup {
 			names[p.Name()] = nameBinding{v: p}
 		}
+		// entry value of a (possibly reassigned) parameter: <name>0
+		if _, dup := names[p.Name()+"0"]; !dup {
+			names[p.Name()+"0"] = nameBinding{v: p}
+		}
 	}
 	for _, fv := range f.fn.FreeVars {
 		if _, dup := names[fv.Name()]; !dup {
@@ -651,6 +657,19 @@ func (f *Frame) cutLoop(li *loopInfo, st State) State {
 		c := vc.Fresh(f.label0()+phi.Name()+"."+phi.Comment, entryVal.T.Sort)
 		f.env[phi] = Val{T: c}
 		li.phiVals[phi] = c
+		if phi.Comment == "rangeindex" {
+			// go/ssa's range-over-slice index starts at -1 and is only incremented
+			// (automatic invariant; re-checked on the back edge)
+			vc.Assume(Ge(c, IntLit(-1)))
+			li.rangePhis = append(li.rangePhis, phi)
+			// ... and stays below the length it is compared with (k+1 < n is the loop test)
+			if n := rangeBound(phi); n != nil {
+				if nv, ok := f.invariantValue(li, n); ok && nv.Loc == nil {
+					vc.Oblige(f.label, "inv-init", fmt.Sprintf("%d.rangebound", li.ordinal), st.PC, Lt(IntLit(-1), nv.T), "automatic: range bound is non-negative")
+					vc.Assume(Lt(c, nv.T))
+				}
+			}
+		}
 		for _, fact := range f.typeFacts(phi.Type(), c, heap) {
 			vc.Assume(fact)
 		}
@@ -697,6 +716,11 @@ func (f *Frame) backEdge(li *loopInfo, from *ssa.BasicBlock, st State) {
 			vc.Oblige(f.label, "inv-keep", fmt.Sprintf("%d.frame.%s", li.ordinal, c.name), st.PC, t, "automatic loop frame for "+c.name)
 		}
 	}
+	for _, phi := range li.rangePhis {
+		if v, ok := override[phi]; ok {
+			vc.Oblige(f.label, "inv-keep", fmt.Sprintf("%d.rangeindex", li.ordinal), st.PC, Ge(v.T, IntLit(-1)), "automatic: range index >= -1")
+		}
+	}
 	if li.spec == nil {
 		return
 	}
@@ -716,4 +740,25 @@ func (f *Frame) backEdge(li *loopInfo, from *ssa.BasicBlock, st State) {
 				And(Ge(li.measure, IntLit(0)), Lt(v.T, li.measure)), li.spec.Decreases.Src)
 		}
 	}
+}
+
+// rangeBound finds n in the go/ssa range-loop header  k' = k + 1; if k' < n.
+func rangeBound(phi *ssa.Phi) ssa.Value {
+	b := phi.Block()
+	var inc ssa.Value
+	for _, ins := range b.Instrs {
+		if bo, ok := ins.(*ssa.BinOp); ok {
+			if bo.Op == token.ADD && bo.X == phi {
+				if c, ok := bo.Y.(*ssa.Const); ok && c.Value != nil && c.Value.String() == "1" {
+					inc = bo
+				}
+			}
+			if bo.Op == token.LSS && inc != nil && bo.X == inc {
+				if iff, ok := b.Instrs[len(b.Instrs)-1].(*ssa.If); ok && iff.Cond == bo {
+					return bo.Y
+				}
+			}
+		}
+	}
+	return nil
 }
